@@ -30,6 +30,15 @@ void nsync_cv_init (nsync_cv *cv) {
         memset ((void *) cv, 0, sizeof (*cv));
 }
 
+/* Wake *nw, a waiter that has just been removed from its queue.  nw->sem is
+   read before nw->waiting is cleared, because *nw may be in the stack frame of
+   an nsync_wait_n() call that is free to return once nw->waiting is zero.  */
+static void wake_nsync_waiter (struct nsync_waiter_s *nw) {
+	struct nsync_semaphore_s_ *sem = nw->sem;
+	ATM_STORE_REL (&nw->waiting, 0); /* release store */
+	nsync_mu_semaphore_v (sem);
+}
+
 /* Wake the cv waiters in the circular list pointed to by
    to_wake_list, which may not be NULL.  If the waiter is associated with a
    nsync_mu, the "wakeup" may consist of transferring the waiters to the nsync_mu's
@@ -141,8 +150,7 @@ static void wake_waiters (nsync_dll_list_ to_wake_list, int all_readers) {
 		next = nsync_dll_next_ (to_wake_list, p);
 		to_wake_list = nsync_dll_remove_ (to_wake_list, p);
 		/* Wake the waiter. */
-		ATM_STORE_REL (&p_nw->waiting, 0); /* release store */
-		nsync_mu_semaphore_v (p_nw->sem);
+		wake_nsync_waiter (p_nw);
 	}
 }
 
